@@ -300,3 +300,323 @@ Proof. exact (@Net_props4.C13_net_query_released). Qed.
 Print Assumptions C13_net_client_released.
 Print Assumptions C13_net_peers_connected.
 Print Assumptions C13_net_query_released.
+
+(* ---- lifted to networks (package Q): per-peer and per-query state of BOTH halves is bounded and released in every reachable net —
+   any number of nodes, connections, queries and steps, every schedule of deliveries and store completions Net.v can produce.
+   Two requested statements are false of the faithful composition and are registered as `_refuted` with the strongest true variant:
+   lookups started for a peer outlive its disconnect (the blocks they load are discarded), and a client whose peer is blocked in a
+   transmission keeps request states nobody wants (`C13_net_client_total_partial` counts them as `stale_total`). *)
+From BS Require Import Net_proofs50 Net_proofs51 Net_proofs52 Net_proofs53 Net_proofs54 Net_props5.
+
+Theorem C13_net_server_bounded :
+  forall (Sz : N) (Hh : hash_fn),
+  32 <= Sz ->
+  forall (n : nat) (ops : list nop),
+  Forall (nop_good Sz Hh) ops ->
+  let s := fst (nrun Sz Hh (net_init n) ops) in
+  forall (j : N) (nj : node),
+  get_node s j = Some nj ->
+  let st := n_server nj in
+  (NoDup (map fst (s_wants st)) /\
+   (forall p : peer, In p (map fst (s_wants st)) <-> Net.connected s j p = true) /\
+   (forall (p : N) (ws : list cid),
+    alookup N.eqb p (s_wants st) = Some ws ->
+    NoDup ws /\ len ws <= MAX_WANTLIST_ENTRIES_PER_PEER /\ Net.connected s j p = true) /\
+   (length (s_wants st) <= npeers s j)%nat) /\
+  (NoDup (map fst (s_waiting st)) /\
+   (forall (c : cid) (l : list peer),
+    alookup cid_eqb c (s_waiting st) = Some l ->
+    NoDup l /\
+    l <> [] /\
+    (forall p : peer,
+     In p l ->
+     Net.connected s j p = true /\ (exists ws : list cid, alookup N.eqb p (s_wants st) = Some ws /\ In c ws))) /\
+   regs_total (s_waiting st) = wants_total (s_wants st) /\ (wants_total (s_wants st) <= 1024 * npeers s j)%nat) /\
+  ((tasks_n st <= count_smsg (sops_run Sz Hh (net_init n) ops j))%nat /\
+   (tasks_n st <= count_dw j ops)%nat /\
+   (forall t : task, In t (s_ready st) -> (task_size t <= 1024)%nat) /\
+   (forall (k : N) (c : cid) (t : task),
+    In (k, (c, t)) (s_blocked st) -> (task_size t + 1 <= 1024)%nat /\ k < s_next_call st) /\
+   NoDup (map fst (s_blocked st)) /\
+   (forall (k : N) (c : cid),
+    In (KSGet k c) (n_calls nj) ->
+    k < s_next_call st /\ (forall (c' : cid) (t : task), In (k, (c', t)) (s_blocked st) -> c' = c))) /\
+  s_panic st = false.
+Proof. exact (@Net_props5.C13_net_server_bounded). Qed.
+
+Theorem C13_net_lookup_released :
+  forall (Sz : N) (Hh : hash_fn),
+  32 <= Sz ->
+  forall (s : net) (j k : N) (nj : node) (m : N) (c : cid),
+  net_ok Sz Hh s ->
+  get_node s j = Some nj ->
+  nth_error (n_calls nj) (N.to_nat k) = Some (KSGet m c) ->
+  exists nj' : node,
+    get_node (fst (nstep Sz Hh s (NStore j k))) j = Some nj' /\
+    n_calls nj' = remove_nth (N.to_nat k) (n_calls nj) /\
+    ~ In m (map fst (s_blocked (n_server nj'))) /\
+    (tasks_n (n_server nj') <= tasks_n (n_server nj))%nat /\
+    s_wants (n_server nj') = s_wants (n_server nj) /\ s_waiting (n_server nj') = s_waiting (n_server nj).
+Proof. exact (@Net_props5.C13_net_lookup_released). Qed.
+
+Theorem C13_net_server_calls_exact :
+  forall (Sz : N) (Hh : hash_fn),
+  32 <= Sz ->
+  forall (n : nat) (ops : list nop),
+  Forall (nop_good Sz Hh) ops ->
+  Forall (Net_proofs7.nop_wf Sz) ops ->
+  let s := fst (nrun Sz Hh (net_init n) ops) in
+  forall (j : N) (nj : node),
+  get_node s j = Some nj ->
+  let st := n_server nj in
+  NoDup (srv_calls (n_calls nj)) /\
+  (forall k : N, In k (srv_calls (n_calls nj)) <-> In k (map fst (s_blocked st))) /\
+  (forall (k : N) (c : cid), In (KSGet k c) (n_calls nj) <-> (exists t : task, In (k, (c, t)) (s_blocked st))) /\
+  length (srv_calls (n_calls nj)) = length (s_blocked st) /\
+  (length (srv_calls (n_calls nj)) <= count_dw j ops)%nat.
+Proof. exact (@Net_props5.C13_net_server_calls_exact). Qed.
+
+Theorem C13_net_wires_between_connected :
+  forall (Sz : N) (Hh : hash_fn) (n : nat) (ops : list nop), wires_conn (fst (nrun Sz Hh (net_init n) ops)).
+Proof. exact (@Net_props5.reachable_wires_conn). Qed.
+
+Theorem C13_net_server_released :
+  forall (Sz : N) (Hh : hash_fn),
+  32 <= Sz ->
+  forall (n : nat) (ops : list nop),
+  Forall (nop_good Sz Hh) ops ->
+  let s := fst (nrun Sz Hh (net_init n) ops) in
+  forall j p : N,
+  Net.connected s j p = false ->
+  (forall nj : node,
+   get_node s j = Some nj ->
+   alookup N.eqb p (s_wants (n_server nj)) = None /\
+   (forall (c : cid) (l : list peer), alookup cid_eqb c (s_waiting (n_server nj)) = Some l -> ~ In p l)) /\
+  (forall m : bmsg, In m (wire_b s) -> b_touches j p m = false) /\
+  (forall m : wmsg, In m (wire_w s) -> w_touches j p m = false).
+Proof. exact (@Net_props5.C13_net_server_released). Qed.
+
+Theorem C13_net_server_released_after :
+  forall (Sz : N) (Hh : hash_fn),
+  32 <= Sz ->
+  forall (n : nat) (ops1 : list nop) (a b : N) (ops2 : list nop),
+  Forall (nop_good Sz Hh) (ops1 ++ NDisconnect a b :: ops2) ->
+  (forall o : nop, In o ops2 -> o <> NConnect a b /\ o <> NConnect b a) ->
+  let s := fst (nrun Sz Hh (net_init n) (ops1 ++ NDisconnect a b :: ops2)) in
+  (forall na : node,
+   get_node s a = Some na ->
+   alookup N.eqb b (s_wants (n_server na)) = None /\
+   (forall (c : cid) (l : list peer), alookup cid_eqb c (s_waiting (n_server na)) = Some l -> ~ In b l)) /\
+  (forall nb : node,
+   get_node s b = Some nb ->
+   alookup N.eqb a (s_wants (n_server nb)) = None /\
+   (forall (c : cid) (l : list peer), alookup cid_eqb c (s_waiting (n_server nb)) = Some l -> ~ In a l)) /\
+  (forall m : bmsg, In m (wire_b s) -> b_touches a b m = false) /\
+  (forall m : wmsg, In m (wire_w s) -> w_touches a b m = false).
+Proof. exact (@Net_props5.C13_net_server_released_after). Qed.
+
+Theorem C13_net_outq_empty :
+  forall (Sz : N) (Hh : hash_fn),
+  32 <= Sz ->
+  forall (n : nat) (ops : list nop),
+  Forall (nop_good Sz Hh) ops ->
+  forall (j : N) (nj : node),
+  get_node (fst (nrun Sz Hh (net_init n) ops)) j = Some nj -> s_outq (n_server nj) = [].
+Proof. exact (@Net_props5.reachable_outq_nil). Qed.
+
+Theorem C13_net_lookups_outlive_disconnect_refuted :
+  exists (ops : list nop) (j p : N) (nj : node) (k : N) (c : cid) (t : task),
+    Forall (nop_good SZ toyH) ops /\
+    Forall (Net_proofs7.nop_wf SZ) ops /\
+    (exists ops1 : list nop, ops = ops1 ++ [NDisconnect p j]) /\
+    get_node (fst (nrun SZ toyH (net_init 2) ops)) j = Some nj /\
+    Net.connected (fst (nrun SZ toyH (net_init 2) ops)) j p = false /\
+    s_wants (n_server nj) = [] /\
+    s_waiting (n_server nj) = [] /\
+    s_blocked (n_server nj) = [(k, (c, t))] /\
+    t_peer t = p /\
+    n_calls nj = [KSGet k c] /\
+    option_map (fun n : node => s_ready (n_server n))
+      (get_node (fst (nrun SZ toyH (net_init 2) (ops ++ [NStore j 0]))) j) =
+    Some [{| t_peer := p; t_done := [(c, SHit d1)]; t_todo := [] |}] /\
+    option_map (fun n : node => (tasks_n (n_server n), s_outq (n_server n)))
+      (get_node (fst (nrun SZ toyH (net_init 2) (ops ++ [NStore j 0; NPoll j]))) j) = 
+    Some (0%nat, []) /\ wire_b (fst (nrun SZ toyH (net_init 2) (ops ++ [NStore j 0; NPoll j]))) = [].
+Proof. exact (@Net_props5.C13_net_server_released_refuted). Qed.
+
+Theorem C13_net_client_bounded :
+  forall (Sz : N) (Hh : hash_fn),
+  32 <= Sz ->
+  forall (n : nat) (ops : list nop),
+  Forall (nop_good Sz Hh) ops ->
+  let s := fst (nrun Sz Hh (net_init n) ops) in
+  let evs := snd (nrun Sz Hh (net_init n) ops) in
+  forall (i : N) (ni : node),
+  get_node s i = Some ni ->
+  let cl := n_client ni in
+  let g := cops_run Sz Hh (net_init n) ops i in
+  (NoDup (map fst (cs_peers cl)) /\
+   (forall (p : peer) (ps : peer_state),
+    In (p, ps) (cs_peers cl) -> Net.connected s i p = true /\ p_conns ps = [CONN]) /\
+   (forall p : N, Net.connected s i p = false -> al_find N.eqb p (cs_peers cl) = None) /\
+   (length (cs_peers cl) <= npeers s i)%nat) /\
+  (forall (p : N) (ps : peer_state),
+   al_find N.eqb p (cs_peers cl) = Some ps ->
+   NoDup (Client_proofs7.keys (p_wl ps)) /\
+   (forall c : cid,
+    In c (Client_proofs7.keys (p_wl ps)) ->
+    In c (wl_cids (cs_wl cl)) \/ In c (Client_proofs7.stale_cids p true g)) /\
+   (length (req (p_wl ps)) <= length (cs_c2q cl) + length (Client_proofs7.stale_cids p true g))%nat) /\
+  (NoDup (wl_cids (cs_wl cl)) /\
+   NoDup (map fst (cs_c2q cl)) /\
+   NoDup (c2q_qids (cs_c2q cl)) /\
+   length (wl_cids (cs_wl cl)) = length (cs_c2q cl) /\
+   (forall c : cid, In c (wl_cids (cs_wl cl)) <-> (exists qs : list qid, In (c, qs) (cs_c2q cl))) /\
+   (forall (c : cid) (qs : list qid),
+    In (c, qs) (cs_c2q cl) ->
+    qs <> [] /\
+    (forall q : qid,
+     In q qs ->
+     q < count_ngets i ops /\
+     ~ In (i, q) (ev_keys evs) /\ ~ In q (task_qids (cs_tasks cl)) /\ ~ In q (queue_qids (cs_queue cl))))) /\
+  (NoDup (map fst (cs_tasks cl)) /\
+   (forall (tid : N) (t : Client.task),
+    In (tid, t) (cs_tasks cl) ->
+    match t_kind t with
+    | TGet q _ =>
+        t_aborted t = false /\ In (q, tid) (cs_abort cl) \/ t_aborted t = true /\ In tid (cs_ready cl)
+    | TPut bl => bl <> []
+    end) /\
+   length (cs_tasks cl) =
+   (length (cs_abort cl) + length (filter Client_proofs8.aborted_get (cs_tasks cl)) +
+    length (filter Client_proofs8.is_put (cs_tasks cl)))%nat /\
+   (length (filter Client_proofs8.aborted_get (cs_tasks cl)) <= length (cs_ready cl))%nat /\
+   NoDup (cs_ready cl) /\
+   incl (cs_ready cl) (map fst (cs_tasks cl)) /\
+   NoDup (map fst (cs_abort cl)) /\
+   (forall (q : qid) (tid : N),
+    In (q, tid) (cs_abort cl) ->
+    q < count_ngets i ops /\
+    (exists (c : cid) (t : Client.task),
+       In (tid, t) (cs_tasks cl) /\ t_kind t = TGet q c /\ t_aborted t = false))) /\
+  (forall (p : peer) (c : conn) (f : bool) (es : list gen_entry), ~ In (EvSend p c f es) (cs_queue cl)) /\
+  length (cs_queue cl) = length (queue_qids (cs_queue cl)) /\
+  NoDup (queue_qids (cs_queue cl)) /\
+  (forall q : qid,
+   In q (queue_qids (cs_queue cl)) ->
+   q < count_ngets i ops /\
+   ~ In (i, q) (ev_keys evs) /\ ~ In q (task_qids (cs_tasks cl)) /\ ~ In q (c2q_qids (cs_c2q cl))).
+Proof. exact (@Net_props5.C13_net_client_bounded). Qed.
+
+Theorem C13_net_wantlist_only_live :
+  forall (Sz : N) (Hh : hash_fn) (n : nat) (ops : list nop) (i : N) (ni : node) (c : cid),
+  get_node (fst (nrun Sz Hh (net_init n) ops)) i = Some ni ->
+  In c (wl_cids (cs_wl (n_client ni))) ->
+  exists (q : qid) (qs : list qid),
+    In (c, qs) (cs_c2q (n_client ni)) /\
+    In q qs /\
+    q < count_ngets i ops /\
+    ~ In (i, q) (ev_keys (snd (nrun Sz Hh (net_init n) ops))) /\
+    (forall ops1 ops2 : list nop,
+     ops = ops1 ++ NCancel i q :: ops2 ->
+     q < count_ngets i ops1 ->
+     exists ni1 : node,
+       get_node (fst (nrun Sz Hh (net_init n) ops1)) i = Some ni1 /\
+       In q (queue_qids (cs_queue (n_client ni1)))).
+Proof. exact (@Net_props5.C13_net_wantlist_only_live). Qed.
+
+Theorem C13_net_query_cancel_released :
+  forall (Sz : N) (Hh : hash_fn) (n : nat) (ops1 : list nop) (i q : N) (ops2 : list nop) (ni : node),
+  q < count_ngets i ops1 ->
+  ~ In (i, q) (ev_keys (snd (nrun Sz Hh (net_init n) ops1))) ->
+  (forall ni1 : node,
+   get_node (fst (nrun Sz Hh (net_init n) ops1)) i = Some ni1 -> ~ In q (queue_qids (cs_queue (n_client ni1)))) ->
+  get_node (fst (nrun Sz Hh (net_init n) (ops1 ++ NCancel i q :: ops2))) i = Some ni ->
+  ~ In q (c2q_qids (cs_c2q (n_client ni))) /\
+  ~ In q (queue_qids (cs_queue (n_client ni))) /\
+  ~ In q (map fst (cs_abort (n_client ni))) /\
+  (forall (tid : N) (t : Client.task) (c : cid),
+   In (tid, t) (cs_tasks (n_client ni)) -> t_kind t = TGet q c -> t_aborted t = true).
+Proof. exact (@Net_props5.C13_net_query_cancel_released). Qed.
+
+Theorem C13_net_query_released_all :
+  forall (Sz : N) (Hh : hash_fn) (n : nat) (ops : list nop) (i : N) (q : qid) (ni : node),
+  get_node (fst (nrun Sz Hh (net_init n) ops)) i = Some ni ->
+  In (i, q) (ev_keys (snd (nrun Sz Hh (net_init n) ops))) \/
+  (exists ops1 ops2 : list nop,
+     ops = ops1 ++ NCancel i q :: ops2 /\
+     q < count_ngets i ops1 /\
+     (forall ni1 : node,
+      get_node (fst (nrun Sz Hh (net_init n) ops1)) i = Some ni1 ->
+      ~ In q (queue_qids (cs_queue (n_client ni1))))) ->
+  ~ In q (c2q_qids (cs_c2q (n_client ni))) /\
+  ~ In q (queue_qids (cs_queue (n_client ni))) /\
+  ~ In q (map fst (cs_abort (n_client ni))) /\
+  (forall (tid : N) (t : Client.task) (c : cid),
+   In (tid, t) (cs_tasks (n_client ni)) -> t_kind t = TGet q c -> t_aborted t = true).
+Proof. exact (@Net_props5.C13_net_query_released_all). Qed.
+
+Theorem C13_net_total_bound :
+  forall (Sz : N) (Hh : hash_fn),
+  32 <= Sz ->
+  forall (n : nat) (ops : list nop),
+  Forall (nop_good Sz Hh) ops ->
+  let s := fst (nrun Sz Hh (net_init n) ops) in
+  forall (j : N) (nj : node),
+  get_node s j = Some nj ->
+  let st := n_server nj in
+  s_outq st = [] /\
+  (srv_size st <= 2 * 1024 * npeers s j + 1025 * tasks_n st)%nat /\
+  (srv_work st <= srv_size st)%nat /\
+  (tasks_n st <= count_dw j ops)%nat /\
+  (Forall (Net_proofs7.nop_wf Sz) ops ->
+   (forall (k : N) (c : cid) (t : task), In (k, (c, t)) (s_blocked st) -> In (KSGet k c) (n_calls nj)) /\
+   (length (s_blocked st) <= length (srv_calls (n_calls nj)))%nat).
+Proof. exact (@Net_props5.C13_net_total_bound). Qed.
+
+Theorem C13_net_client_total_partial :
+  forall (Sz : N) (Hh : hash_fn),
+  32 <= Sz ->
+  forall (n : nat) (ops : list nop),
+  Forall (nop_good Sz Hh) ops ->
+  let s := fst (nrun Sz Hh (net_init n) ops) in
+  forall (i : N) (ni : node),
+  get_node s i = Some ni ->
+  let cl := n_client ni in
+  let g := cops_run Sz Hh (net_init n) ops i in
+  (reqs_total (cs_peers cl) <= npeers s i * length (cs_c2q cl) + stale_total g (cs_peers cl))%nat /\
+  (cl_size cl <=
+   (4 + npeers s i) * live_queries cl + stale_total g (cs_peers cl) +
+   2 *
+   (length (filter Client_proofs8.aborted_get (cs_tasks cl)) +
+    length (filter Client_proofs8.is_put (cs_tasks cl))))%nat.
+Proof. exact (@Net_props5.C13_net_client_total_partial). Qed.
+
+Theorem C13_net_client_total_refuted :
+  exists (ops : list nop) (i : N) (ni : node),
+    Forall (nop_good SZ toyH) ops /\
+    Forall (Net_proofs7.nop_wf SZ) ops /\
+    get_node (fst (nrun SZ toyH (net_init 2) ops)) i = Some ni /\
+    live_queries (n_client ni) = 0%nat /\
+    cs_tasks (n_client ni) = [] /\
+    wl_cids (cs_wl (n_client ni)) = [] /\
+    npeers (fst (nrun SZ toyH (net_init 2) ops)) i = 1%nat /\
+    map (fun e : peer * peer_state => (fst e, Client_proofs7.keys (p_wl (snd e)))) (cs_peers (n_client ni)) =
+    [(1, [c1])] /\ cl_size (n_client ni) = 1%nat.
+Proof. exact (@Net_props5.C13_net_client_total_refuted). Qed.
+
+Print Assumptions C13_net_server_bounded.
+Print Assumptions C13_net_lookup_released.
+Print Assumptions C13_net_server_calls_exact.
+Print Assumptions C13_net_wires_between_connected.
+Print Assumptions C13_net_server_released.
+Print Assumptions C13_net_server_released_after.
+Print Assumptions C13_net_outq_empty.
+Print Assumptions C13_net_lookups_outlive_disconnect_refuted.
+Print Assumptions C13_net_client_bounded.
+Print Assumptions C13_net_wantlist_only_live.
+Print Assumptions C13_net_query_cancel_released.
+Print Assumptions C13_net_query_released_all.
+Print Assumptions C13_net_total_bound.
+Print Assumptions C13_net_client_total_partial.
+Print Assumptions C13_net_client_total_refuted.
